@@ -106,7 +106,8 @@ def cache_key(ctx):
         glob.glob(os.path.join(ROOT, "lean", "Nsq", "Model", "Chan*.lean")) + \
         [os.path.join(ROOT, "lean", "DriverE2.lean"), os.path.join(ROOT, "lib", "e2.py")] + \
         glob.glob(os.path.join(ROOT, "corpus", "C*", "**", "*.ops"), recursive=True)
-    return "s%d-%s-%s-%s" % (ctx.seed, ctx.tier, fw.repo_tree_hash(), _hash_files(mine))
+    # (only what package nsqd is built from: other engineers' fixes elsewhere in the tree do not invalidate the run)
+    return "s%d-%s-%s-%s" % (ctx.seed, ctx.tier, fw.repo_tree_hash(["nsqd", "internal", "go.mod", "go.sum"]), _hash_files(mine))
 
 
 def parse_log(out):
